@@ -121,6 +121,15 @@ def main(ctx, replay=None):
                 calc = run(ds.write(d))
             except Exception:
                 continue
+            if n % 2 == 1:
+                # other commands of the package run in the same process before anything is written (a notebook, a test session): what
+                # `cij fill` prints is no business of the tables written afterwards
+                try:
+                    from click.testing import CliRunner
+                    from cij.cli.fill import main as fill_main
+                    CliRunner().invoke(fill_main, [str(d / "elast.dat"), "-s", ds.system or "triclinic"])
+                except Exception:
+                    pass
             st = ds.settings
             exp_rows = st["T_MIN"] + st["DT"] * numpy.arange(st["NT"])
             exp_cols = {"tp": st["P_MIN"] + st["DELTA_P"] * numpy.arange(st["NTV"]),
@@ -174,7 +183,7 @@ def main(ctx, replay=None):
                     bad = None
                     if len(rr) != len(exp_rows) or not numpy.allclose(rr, exp_rows, rtol=1e-9, atol=1e-9):
                         bad = f"row labels {rr.tolist()} expected {exp_rows.tolist()}"
-                    elif len(cc) != len(exp_cols[r["base"]]) or not numpy.allclose(cc, exp_cols[r["base"]], rtol=1e-5 if r["base"] == "tv" else 1e-9, atol=1e-9):
+                    elif len(cc) != len(exp_cols[r["base"]]) or not numpy.allclose(cc, exp_cols[r["base"]], rtol=2e-9 if r["base"] == "tv" else 1e-9, atol=1e-6 if r["base"] == "tv" else 1e-9):      # (volume labels are printed with six decimals)
                         bad = f"column labels {cc.tolist()[:4]}.. expected {exp_cols[r['base']].tolist()[:4]}.."
                     elif vv.shape == want.shape and numpy.any(numpy.isfinite(want) & (want != 0)):
                         with numpy.errstate(all="ignore"):
@@ -226,6 +235,7 @@ def overrides(ctx, calc, wd, ds):
     with cwd(out):
         try:
             ResultsWriter(calc.pressure_base).write({"keyword": "bm_V", "fname": "my_bulk.dat"})
+            ResultsWriter(calc.pressure_base).write({"keyword": "bm_R", "fname": "K_{base}_{run-1}.dat"})       # a name is a name, braces and all
             ResultsWriter(calc.pressure_base).write({"keyword": "G_V", "unit": "kbar"})
             ResultsWriter(calc.volume_base).write({"keyword": "cij_t", "unit": "kbar"})
             ResultsWriter(calc.pressure_base).write({"keyword": "vp", "unit": "m/s", "fname": "vp_m_per_s.dat"})
@@ -234,6 +244,9 @@ def overrides(ctx, calc, wd, ds):
         except Exception as ex:
             ctx.violation(f"override raised {ex!r}", {}, {"clause": "override_raises"})
             return
+    if not (out / "K_{base}_{run-1}.dat").exists():
+        ctx.violation(f"file-name override 'K_{{base}}_{{run-1}}.dat' wrote {sorted(p.name for p in out.iterdir() if p.name.startswith('K_'))} instead of a file of that name",
+                      {}, {"clause": "override_fname"})
     for fn, arr, fac, what in (("vp_m_per_s.dat", calc.pressure_base.primary_velocities, 1000.0, "vp in m/s"),
                                ("vs_m_per_s.dat", calc.volume_base.secondary_velocities, 1000.0, "vs in m/s"),
                                ("v_bohr3.dat", calc.pressure_base.volumes, 1.0, "volumes in bohr^3")):
@@ -261,7 +274,7 @@ def overrides(ctx, calc, wd, ds):
             return
         if not agrees_to_printed_precision(fij, v3, numpy.asarray(calc.volume_base.modulus_isothermal[k0])[:-4] * FACT[("Ry/bohr3", "GPa")] * 10.0):
             ctx.violation("unit override 'kbar' not honoured for the per-component keyword cij_t", {}, {"clause": "override_unit_ij"})
-    if files != ["G_V_tp_gpa.txt", "my_bulk.dat"]:
+    if [f for f in files if f != "K_{base}_{run-1}.dat"] != ["G_V_tp_gpa.txt", "my_bulk.dat"]:
         ctx.violation(f"file-name override not honoured: files {files}", {"files": files}, {"clause": "override_fname"})
         return
     pt = parse_or_flag(ctx, out / "my_bulk.dat", "override_fname_content")
